@@ -299,7 +299,7 @@ HBPread(accrec_t *access_rec, int32 length, void *data)
     /* adjust length if it falls off the end of the element */
     if ((length == 0) || (access_rec->posn + length > info->length))
         length = info->length - access_rec->posn;
-    else if (length < 0)
+    if (length < 0) /* position is beyond the end of the element */
         HGOTO_ERROR(DFE_RANGE, FAIL);
 
     /* Copy data from buffer */
